@@ -155,3 +155,32 @@ def copy_independent(l0: int, l1: int, n: int, which: int, v: int) -> bool:
         p = JSONPatch().copy("/src", "/arr/0").remove("/arr/0/m/x").add("/arr/0/k/-", v)
     out = p.apply(doc)
     return ok(why(same_json(out["src"], {"k": [l0, l1][:n], "m": {"x": l0}}), "source changed", out))
+
+
+def text_twice(n: int, which: int, v: int) -> bool:
+    """The target document given as JSON text: every application starts from the text, so a second application of a patch
+    to the same text gives the same result as the first (and as applying it to the parsed text).
+
+    pre: 0 <= n <= 2
+    pre: 0 <= which <= 3
+    post: _
+    """
+    import json
+
+    arr = [10, 20]
+    text = json.dumps({"a": arr[:1] if n == 1 else (arr if n == 2 else []), "b": {"c": 1}})
+    if which == 0:
+        p = JSONPatch().add("/a/-", v).replace("/b/c", v)
+    elif which == 1:
+        p = JSONPatch().remove("/b/c").add("/b/d", [v])
+    elif which == 2:
+        p = JSONPatch().add("/a/0", v).test("/a/0", v)
+    else:
+        p = JSONPatch().move("/b", "/a/-").add("/n", v)
+    exp = p.apply(json.loads(text))
+    first = p.apply(text)
+    try:
+        second = p.apply(text)
+    except JSONPatchError as e:
+        return ok(why(False, "second application to the same text failed", text, str(e)))
+    return ok(why(same_json(first, exp), "application to JSON text", first, exp) and why(same_json(second, exp), "second application to the same JSON text", second, exp))
